@@ -166,3 +166,24 @@ package container
 //@   ensures @C10 result == nil ==> P.st == 0 || P.st == 9
 //@   ensures @C12 forall k int :: 0 <= k && k < len(msg.Fds) ==> FD.closed[msg.Fds[k]]
 //@   callsite (*Runner).Start: assert @C04 r.NoNewPrivs && r.DropCaps && r.SyncFunc == syncFunc && r.Seccomp == seccomp && r.Credential == cred
+
+
+// ---- Open: index alignment and planted objects (C14) ----
+
+// regular file or absent: the only states in which handleOpen may open the path
+//@ func container.checkOpenTargetFile props C14
+//@   arith int
+//@   assigns O.checked, O.checked_ok
+//@   abstracts O.checked == path && O.checked_ok == (result == nil)
+
+//@ func container.(*containerServer).handleOpen props C10 C12 C14
+//@   arith int
+//@   requires P.st == 1 && c != nil
+//@   assigns P.st, O.checked, O.checked_ok
+//@   ensures @C10 result == nil ==> P.st == 0 || P.st == 9
+//@   loop 0: invariant P.st == 1 && -1 <= rangeindex && rangeindex < len(open)
+//@   loop 0: invariant len(openErrors) == len(open) && fresh(openErrors) && soff(openErrors) == 0 && fresh(fds) && fresh(fileToClose)
+//@   loop 0: invariant len(fds) == len(fileToClose) && len(fds) == rank(openErrors, rangeindex + 1) && len(fds) <= rangeindex + 1 && cap(fds) == len(open) && cap(fileToClose) == len(open)
+//@   loop 0: invariant forall k int :: rangeindex < k && k < len(open) ==> len(openErrors[k]) == 0
+//@   callsite os.OpenFile: assert @C14 O.checked == name && O.checked_ok
+//@   callsite (*containerServer).sendReplyFiles: assert @C14 len(rep.BatchErrors) == len(open) && len(msg.Fds) == rank(rep.BatchErrors, len(open)) && len(fileToClose) == len(msg.Fds)
